@@ -112,6 +112,14 @@ NOT_APPLICABLE = {
            "after which both sides of every branch are executed; measured with fold probes, DESIGN.md 8.2), and Addr::try_from_bytes with two "
            "arbitrary hex digits needs more than 750 s. The address-parser kernel that remains "
            "(decided under C03) does not settle the property. Harnesses are kept in harness/c10_store.rs (./check C10 --tier thorough); nothing is claimed.",
+    "C08": "Verification = canonical text -> SHA-256 -> libsecp256k1 (C code behind FFI): neither the hash of a symbolic-length string nor the "
+           "signature check can be encoded; the canonical-text kernels that remain are decided under C02/C03 and would not settle 'accepts exactly'.",
+    "C14": "Concurrency: Kani/CBMC do not model Rust threads; the isolation relied on is LMDB's writer lock/MVCC (C code behind FFI) "
+           "and locks inside mmap-append. Under any sequential environment model the property is trivially true of the model, not of pocket (DESIGN.md section 5).",
+    "C16": "Rebuild renames directories, checks file ownership and re-indexes through two LMDB environments - beyond the environment model and the "
+           "memory budget. Reopen: the event file's reopen is decided under C04/C13; the Lmdb-level reopen harnesses (harness/c16_reopen.rs: the real "
+           "Lmdb::new on an environment that already holds markers and index entries) run out of 16 GB, so nothing is claimed for C16; the marker-dump "
+           "round trip that remains is a thorough harness of C11.",
 }
 
 PENDING = "check not built yet in this revision of /verif (work in progress; see DESIGN.md section 4 for the plan)"
